@@ -226,7 +226,7 @@ Proof.
       right. split; [|rewrite IH; reflexivity].
       intros [<-|Hin]; [rewrite key_eqb_refl in E; discriminate| contradiction].
 Qed.
-Lemma NoDup_snoc (l : list key) k : NoDup l -> ~ In k l -> NoDup (l ++ [k]).
+Lemma NoDup_snoc {A} (l : list A) k : NoDup l -> ~ In k l -> NoDup (l ++ [k]).
 Proof.
   induction l as [|x l IH]; simpl; intros Hnd Hn; [constructor; [tauto|constructor]|].
   inversion Hnd; subst. constructor.
